@@ -965,7 +965,13 @@ class ParquetDataTableAccessor(
         name : str
             The name of the column.
         """
-        return data[name].to_numpy()
+        arr = data[name].to_numpy()
+        if not arr.flags.writeable:
+            # A zero-copy view into the (immutable) pyarrow buffers is
+            # read-only. As for all the other data formats, the field arrays
+            # of a DataFieldRecordArray must be writable.
+            arr = arr.copy()
+        return arr
 
     def get_field_names(self, data):
         return data.column_names
